@@ -823,7 +823,7 @@ class DRRPart:
     serves = ["C15", "C12", "C08"]
     weight = 2
     coq_imports = ["From ONL Require Import Base.Cmp Elem.Packet Elem.StoreQ Elem.DRR."]
-    props_files = {"C15": ["Props/C15_DRR.v", "Props/C15_BridgeDRR.v"], "C12": ["Props/C12_DRR.v"], "C08": ["Props/C08_DRR.v"]}
+    props_files = {"C15": ["Props/C15_DRR.v", "Props/C15_BridgeDRR.v", "Props/C15_BridgeRunDRR.v"], "C12": ["Props/C12_DRR.v"], "C08": ["Props/C08_DRR.v"]}
 
     # ---- second tie: regenerate the translated body before the Coq build (fail closed) ----------------
     def pre_build(self, prop_id):
@@ -833,6 +833,8 @@ class DRRPart:
         from vlib import framework as fw
         from vlib import translate as tr
         tr.write_if_changed(os.path.join(fw.COQ, "Gen", "Extracted_drr.v"), extracted_drr(fw.REPO))
+        from props import sched_tie
+        sched_tie.write_if_changed(fw.COQ, "Extracted_drr_run.v", sched_tie.extracted_drr_run(fw.REPO))
 
     _gen = ("1-4 classes with ids from 0..5 in random declaration order, weights from {1,2,3,4}; flow2class the identity "
             "(55%) or a table mapping 1-3 flows onto each class, flow ids disjoint from or overlapping with the class ids; "
@@ -868,7 +870,15 @@ class DRRPart:
     _tie = ["vlib/translate.py (Python ast, fail closed; tables above the part class in props/part_drr.py) regenerates "
             "coq/Gen/Extracted_drr.v from DRR.put and Scheduler.add_packet_to_queue of the tree under test before every build; "
             "C15_gen_drr_put (Props/C15_BridgeDRR.v) bridges it to the DPut step of the hand-written model; "
-            "self.total_packets (a sum over a dict) is an observation"]
+            "self.total_packets (a sum over a dict) is an observation",
+            "vlib/translate_gen.py (generator bodies cut at their yields and at the head of `while self.total_packets > 0`; the for loop "
+            "over the classes a separate state- and effect-threading definition; the keys of head_of_line a state field; tables in "
+            "props/sched_tie.py) regenerates coq/Gen/Extracted_drr_run.v from DRR.run before every build; the C15_gen_drr_run_* theorems "
+            "(Props/C15_BridgeRunDRR.v, proofs Elem/DRRScanBridge.v) are simulations: from related states (deficits up to ==) the "
+            "generated code and DInit / DGetDone / DChildEnd of the automaton take the same decision with the same rest of the class "
+            "table and end in related states, the generated pass being iterated with fuel along dpasses; what a request / an effect "
+            "does to the stores, current_packet and the child process is not part of these statements (correspondence); the assert "
+            "that a packet taken from the store of a class belongs to that class is not translated"]
     trusted_base = {"C15": _tb + _tie, "C12": _tb, "C08": _tb}
     _as = ["workloads contain only packets whose flow maps to a configured class, size > 0; rate > 0; weights are positive "
            "(a packet of an unconfigured class makes put() raise KeyError at the caller: outside C12's domain; with "
